@@ -8,6 +8,7 @@ import hashlib
 import json
 import os
 import pickle
+import re
 import subprocess
 import sys
 import tempfile
@@ -16,7 +17,7 @@ import time
 HERE = os.path.dirname(os.path.abspath(__file__))
 VERIF = os.path.dirname(HERE)
 CACHE = os.environ.get('CAPCHECK_CACHE', os.path.join(VERIF, '.cache'))
-TOOL_VERSION = '12'
+TOOL_VERSION = '13'
 
 CONTAINERS = ['lru_cache', 'mru_cache', 'rr_cache', 'fifo_cache', 'lfu_cache', 'lfuda_cache',
               'tlru_cache', 'utlru_cache', 'ut_map', 'ut_set']
@@ -38,10 +39,127 @@ def inc_hash(repo):
     return h.hexdigest()
 
 
-def gen_driver(K, V, ts, alt):
+def gen_driver(K, V, ts, alt, extra=()):
     s = open(os.path.join(HERE, 'driver.cpp.in')).read()
-    return (s.replace('@K@', K).replace('@V@', V).replace('@TS@', ts)
-            .replace('@ALT_RANGES@', '1' if alt else '0'))
+    s = (s.replace('@K@', K).replace('@V@', V).replace('@TS@', ts)
+         .replace('@ALT_RANGES@', '1' if alt else '0'))
+    if extra:
+        s += '\n// calls that instantiate public member templates outside the documented API (found by trial compilation)\n'
+        s += 'namespace capcheck_driver\n{\n'
+        for i, (cls, call) in enumerate(extra):
+            targs = 'K, thread_safe::%s' % ts if cls == 'ut_set' else 'K, V, thread_safe::%s' % ts
+            s += EXTRA_FN % dict(i=i, cls=cls, targs=targs, call=call)
+        s += '} // namespace capcheck_driver\n'
+    return s
+
+
+EXTRA_FN = '''void drive_extra_%(i)d(cappuccino::%(cls)s<%(targs)s>& c)
+{
+    K k{};
+    V v{};
+    std::vector<K> ks;
+    std::vector<std::pair<K, V>> kv;
+    std::vector<std::pair<K, std::optional<V>>> fill;
+    std::vector<std::tuple<ms, K, V>> tkv;
+    (void)k; (void)v;
+    (void)c.%(call)s;
+}
+'''
+
+
+def _template_candidates(tnode):
+    """argument lists worth trying for a member template nothing instantiates, from the shape of its parameters"""
+    tparams = [c.get('name') for c in tnode.get('inner', []) if c.get('kind') == 'TemplateTypeParmDecl' and c.get('name')]
+    meth = next((c for c in tnode.get('inner', []) if c.get('kind') == 'CXXMethodDecl'), None)
+    if meth is None:
+        return []
+    params = [c for c in meth.get('inner', []) if c.get('kind') == 'ParmVarDecl']
+    RANGES = ['ks', 'kv', 'fill', 'tkv']
+    per = []
+    i = 0
+    while i < len(params):
+        p = params[i]
+        t = p.get('type', {}).get('qualType', '') or ''
+        name = (p.get('name') or '').lower()
+        dep = [tp for tp in tparams if re.search(r'\b%s\b' % re.escape(tp), t)]
+        if dep:
+            nxt = params[i + 1] if i + 1 < len(params) else None
+            if nxt is not None and (nxt.get('type', {}).get('qualType', '') or '') == t and '...' not in t:
+                per.append([('%s.begin()' % r, '%s.end()' % r) for r in RANGES])        # an iterator pair
+                i += 2
+                continue
+            if '...' in t:
+                per.append([('v',), (), ('k',), ('k', 'v')])
+            elif 'range' in name or 'range' in dep[0].lower() or name.endswith('s'):
+                per.append([(r,) for r in RANGES])
+            else:
+                # (no callable is proposed: what a caller-supplied predicate / visitor does is not the library's behaviour, a template
+                # that needs one stays recorded as not analysed)
+                per.append([(r,) for r in RANGES] + [('k',), ('v',)])
+        elif 'cappuccino::allow' in t:
+            per.append([('cappuccino::allow::insert_or_update',)])
+        elif 'cappuccino::peek' in t:
+            per.append([('cappuccino::peek::no',)])
+        elif 'chrono' in t or 'duration' in t:
+            per.append([('ms{1}',)])
+        elif 'key' in name:
+            per.append([('k',)])
+        elif 'value' in name:
+            per.append([('v',)])
+        elif t.replace('const', '').strip() in ('bool',):
+            per.append([('false',)])
+        elif re.search(r'\b(size_t|int|long|unsigned)\b', t) and 'std::' not in t:
+            per.append([('k',), ('0',)])
+        else:
+            per.append([('k',), ('v',), ('{}',)])
+        i += 1
+    out = [()]
+    for alts in per:
+        out = [a + b for a in out for b in alts][:24]
+    return ['%s(%s)' % (tnode.get('name'), ', '.join(a)) for a in out[:12]]
+
+
+def auto_instantiations(repo, prog, ts, K, V, alt):
+    """[(class, call)] that compile and give every public member template outside the documented API an instantiated body"""
+    todo = []
+    for name in CONTAINERS:
+        cm = prog.classes.get(name)
+        if cm is None:
+            continue
+        for (t, access, loc) in cm.uninstantiated_templates:
+            if access == 'public' and t not in API_TEMPLATES:
+                tnode = next((c for c in cm.node.get('inner', []) if c.get('kind') == 'FunctionTemplateDecl' and c.get('name') == t
+                              and c.get('_loc') == loc), None)
+                if tnode is not None:
+                    todo.append((name, tnode))
+    if not todo:
+        return []
+    base = gen_driver(K, V, ts, alt)
+    key = hashlib.sha256((inc_hash(repo) + base + TOOL_VERSION + 'auto-inst').encode()).hexdigest()[:24]
+    cpath = os.path.join(CACHE, 'inst-%s.json' % key)
+    if os.path.exists(cpath):
+        try:
+            return [tuple(x) for x in json.load(open(cpath))]
+        except Exception:
+            pass
+    found = []
+    with tempfile.TemporaryDirectory(prefix='capcheck-') as td:
+        for cls, tnode in todo:
+            for call in _template_candidates(tnode):
+                src = os.path.join(td, 'try.cpp')
+                with open(src, 'w') as fh:
+                    fh.write(gen_driver(K, V, ts, alt, extra=found + [(cls, call)]))
+                p = subprocess.run(['clang++', '-std=gnu++17', '-I', os.path.join(repo, 'inc'), '-fsyntax-only', '-UNDEBUG', '-Wno-everything', src],
+                                   stdout=subprocess.PIPE, stderr=subprocess.PIPE, text=True)
+                if p.returncode == 0:
+                    found.append((cls, call))
+                    break
+    os.makedirs(CACHE, exist_ok=True)
+    tmp = cpath + '.%d.tmp' % os.getpid()
+    with open(tmp, 'w') as fh:
+        json.dump(found, fh)
+    os.replace(tmp, cpath)
+    return found
 
 
 def _raw_objects(text):
@@ -103,9 +221,9 @@ class _Loc:
         # template specialisations of function templates etc. live under other keys? no: only 'inner'.
 
 
-def dump_ast(repo, ts='yes', K='unsigned long', V='std::string', alt=False, verbose=False):
+def dump_ast(repo, ts='yes', K='unsigned long', V='std::string', alt=False, verbose=False, extra=()):
     """Return the list of top-level AST objects (namespaces, specialisations) with _loc resolved."""
-    drv = gen_driver(K, V, ts, alt)
+    drv = gen_driver(K, V, ts, alt, extra)
     key = hashlib.sha256((inc_hash(repo) + drv + TOOL_VERSION).encode()).hexdigest()[:24]
     os.makedirs(CACHE, exist_ok=True)
     cpath = os.path.join(CACHE, 'ast-%s.pkl' % key)
@@ -395,6 +513,11 @@ def fmt_loc(loc, repo=None):
 def load_program(repo, ts='yes', **kw):
     objs = dump_ast(repo, ts=ts, **kw)
     p = Program(objs, ts)
+    extra = auto_instantiations(repo, p, ts, kw.get('K', 'unsigned long'), kw.get('V', 'std::string'), kw.get('alt', False))
+    if extra:
+        objs = dump_ast(repo, ts=ts, extra=tuple(extra), **kw)
+        p = Program(objs, ts)
+        p.auto_instantiated = ['%s::%s' % e for e in extra]
     p.check_complete()
     return p
 
